@@ -177,6 +177,12 @@ impl<Job> JobBroker<Job> {
         }
     }
 
+    /// See whether the market is still open, i.e. no worker has finished or panicked and the
+    /// timeout (if any) has not expired.
+    pub fn is_open(&self) -> bool {
+        self.market.lock().open
+    }
+
     /// See whether the market is closed.
     pub fn is_closed(&self) -> bool {
         let market = self.market.lock();
